@@ -79,6 +79,9 @@ def lin(e):
         return a + b if e[1] == "Add" else a - b
     if e[0] == "cast" and e[1] == "IntToInt":
         return lin(e[2])
+    if e[0] == "call" and e[2] and e[1].endswith("::len") and e[1].startswith(("core::slice::<impl [T]>", "std::vec::Vec", "alloc::vec::Vec")):
+        # the length of a slice / vector is one atom however it is read (len() call, slice pattern, cached local)
+        return Lin({("len", norm_atom(e[2][0])): 1}, 0)
     return Lin({norm_atom(e): 1}, 0)
 
 
